@@ -12,8 +12,9 @@ PROP = "C19"
 
 def pkg_inputs(rng, i):
     """package i: same object names as the other packages, different definitions"""
-    eng = rng.choice(["postgresql", "postgresql", "postgresql", "mysql"])
-    cols = rng.sample(["name text", "n int NOT NULL", "bio text", "age bigint", "ok boolean"], rng.randint(1, 3))
+    eng = rng.choice(["postgresql", "postgresql", "postgresql", "mysql", "mysql"])
+    pool = ["name text", "n int NOT NULL", "bio text", "age bigint", "ok boolean"] + (["meta json", "born timestamptz", "ip inet", "mac macaddr"] if eng == "postgresql" else ["meta json"])
+    cols = rng.sample(pool, rng.randint(1, 4))
     schema = "CREATE TABLE authors (id int PRIMARY KEY, %s);\n" % ", ".join(cols)
     if eng == "postgresql":
         schema = "CREATE TYPE status AS ENUM (%s);\n" % ", ".join("'%s'" % l for l in rng.sample(["a", "b", "c", "d"], 2)) + schema
@@ -32,6 +33,8 @@ def pkg_inputs(rng, i):
         elif r_ < 0.6:
             schema += "CREATE FUNCTION gen_salt(text) RETURNS int AS $$ SELECT 1 $$ LANGUAGE sql;\n"
         ext_q = "\n-- name: Digest :many\nSELECT digest('x', 'sha1'), gen_salt('bf') FROM authors;\n"
+    if eng == "mysql" and rng.random() < 0.4:
+        schema = "USE legacy%d;\n" % rng.randint(1, 2) + schema      # selects a database for THIS file only
     ph = "$1" if eng == "postgresql" else "?"
     q = "-- name: GetAuthor :one\nSELECT * FROM authors WHERE id = %s;\n\n-- name: ListAuthors :many\nSELECT id, %s FROM authors;\n" % (ph, cols[0].split()[0])
     if "shout" in schema or (eng == "postgresql" and rng.random() < 0.3):
@@ -44,6 +47,12 @@ def pkg_inputs(rng, i):
         gen = {"go": {"package": "db", "out": "out/p%d" % i, "emit_interface": rng.random() < 0.3, "emit_json_tags": rng.random() < 0.3}}
         if rng.random() < 0.3:
             gen["go"]["overrides"] = [{"go_type": "example.com/x.ID", "column": "authors.id"}]
+        if eng == "postgresql" and rng.random() < 0.3:
+            # a type spelled like a standard-library type but imported from elsewhere - in THIS package only
+            gen["go"].setdefault("overrides", []).append(rng.choice([
+                {"go_type": "github.com/goccy/go-json.RawMessage", "db_type": "json"}, {"go_type": "example.com/clock/time.Time", "db_type": "timestamptz"},
+                {"go_type": "example.com/x/net.IP", "db_type": "inet"}, {"go_type": "example.com/x/net.HardwareAddr", "db_type": "macaddr"},
+                {"go_type": "example.com/x/json.RawMessage", "db_type": "json", "nullable": True}]))
     else:
         gen = {"kotlin": {"package": "com.example.p%d" % i, "out": "out/p%d" % i}}
     pkg = {"engine": eng, "schema": "p%d/schema.sql" % i, "queries": "p%d/query.sql" % i, "gen": gen}
